@@ -35,6 +35,7 @@ type built struct {
 	after   func() string   // optional extra judgement after AddTo ("" = fine)
 	related []zapcore.Field // fields that are close to f (same key, wrapped/wrapping payload): symmetry is judged against them
 	boundry bool
+	restore func() // undoes what the row changed in the process (run right after the field was encoded)
 }
 
 type row struct {
@@ -413,6 +414,24 @@ func rows() []row {
 			}
 			return built{f: zap.Stringers(key, ss), again: func() zapcore.Field { return zap.Stringers(key, clone(ss)) }, want: []rec.Call{{Kind: "array", Key: key, Sub: sub}}, desc: "Stringers"}
 		}},
+		{"Time(local zone; time.Local reassigned before encoding)", func(g *gen.G, key string) built {
+			// the field carries the zone the value had when it was built, whatever the process's idea of
+			// "local" is by the time it is encoded
+			t := time.Unix(int64(g.R.Intn(2_000_000_000)), int64(g.R.Intn(1_000_000_000))).In(time.Local)
+			var f zapcore.Field
+			switch g.R.Intn(3) {
+			case 0:
+				f = zap.Time(key, t)
+			case 1:
+				f = zap.Timep(key, &t)
+			default:
+				f = zap.Any(key, t)
+			}
+			old := time.Local
+			time.Local = time.FixedZone("moved", (g.R.Intn(23)-11)*3600+1800)
+			return built{f: f, again: func() zapcore.Field { return f }, want: call("time", key, t), desc: "Time(local zone, time.Local reassigned)",
+				restore: func() { time.Local = old }}
+		}},
 		{"Stringers(nil pointers among the elements)", func(g *gen.G, key string) built {
 			// value-receiver String on pointer elements: a nil pointer renders as "<nil>" like
 			// zap.Stringer does, and the elements after it are still there
@@ -730,6 +749,9 @@ func Run(r *ev.Run) {
 			r.Eval(1)
 			r.Count("values:"+rw.name, 1)
 			got, p := spy(b.f)
+			if b.restore != nil {
+				b.restore()
+			}
 			if p != "" {
 				r.Violate(ev.Violation{Case: id, Class: "addto-panic", Msg: fmt.Sprintf("%s: AddTo panicked: %s", b.desc, p)})
 				continue
